@@ -152,6 +152,25 @@ class Tr:
         """top-level statements of a function, each as its own term (emit_function names every suffix tail<i>)"""
         return [p for p in (self.stmt(s) for s in stmts) if p is not None]
 
+    def parts_named_loops(self, stmts, ctx_params: str, rtype: str):
+        """like parts(), but the body of a top-level `while True` is emitted as named definitions loop_stmt<i>/loop_tail<i>
+        (returned as extra definition text), so that theorems can address the statements inside the loop"""
+        ctx_names = ' '.join(re.findall(r'\((\w+)\s*:', ctx_params))
+        out, extra = [], []
+        for s in stmts:
+            if isinstance(s, ast.While) and isinstance(s.test, ast.Constant) and s.test.value is True and not s.orelse:
+                inner = self.parts(s.body)
+                n = len(inner)
+                extra.append(f'Definition loop_tail{n} {ctx_params} : stmt env {rtype} := s_skip.\n')
+                for i in range(n - 1, -1, -1):
+                    extra.append(f'Definition loop_stmt{i} {ctx_params} : stmt env {rtype} :=\n {inner[i]}.\n'
+                                 f'Definition loop_tail{i} {ctx_params} : stmt env {rtype} := s_seq (loop_stmt{i} {ctx_names}) (loop_tail{i + 1} {ctx_names}).\n')
+                out.append(f's_while_true {self.s.fuel} (loop_tail0 {ctx_names})')
+            else:
+                p = self.stmt(s)
+                if p is not None: out.append(p)
+        return out, ''.join(extra)
+
     def block(self, stmts) -> str:
         parts = [self.stmt(s) for s in stmts]
         parts = [p for p in parts if p is not None]
@@ -284,7 +303,7 @@ def decorators_of(fn) -> list[str]:
 
 
 def emit_function(mod: str, comment: str, fields: dict[str, tuple[str, str]], rtype: str, rdefault: str,
-                  body: str, ctx_params: str = '', args: list[str] = ()) -> str:
+                  body: str, ctx_params: str = '', args: list[str] = (), extra_defs: str = '') -> str:
     """One translated Python function as a Coq Module: its locals record, its body as a statement, and `run`.
     ctx_params: binder text of parameters that are not locals (e.g. '(fuel : nat) (self : contracts)');
     args: the locals that are parameters of the Python function (initialised from run's arguments)."""
@@ -300,7 +319,7 @@ def emit_function(mod: str, comment: str, fields: dict[str, tuple[str, str]], rt
         for i in range(n - 1, -1, -1):
             defs.append(f'Definition stmt{i} {ctx_params} : stmt env {rtype} :=\n {body[i]}.\n'
                         f'Definition tail{i} {ctx_params} : stmt env {rtype} := s_seq (stmt{i} {ctx_names}) (tail{i + 1} {ctx_names}).\n')
-        body_def = ''.join(defs) + f'Definition body {ctx_params} : stmt env {rtype} := tail0 {ctx_names}.\n'
+        body_def = extra_defs + ''.join(defs) + f'Definition body {ctx_params} : stmt env {rtype} := tail0 {ctx_names}.\n'
     else:
         body_def = f'Definition body {ctx_params} : stmt env {rtype} :=\n {body}.\n'
     return (f'(* {sanitize(comment)} *)\nModule {mod}.\n' + env_record('env', fields) + body_def +
